@@ -60,6 +60,10 @@ pinned by C12's `axis_name_pattern_exact`). -/
 theorem ident_name_is_axis_name (s : String) : identName s = Einx.Notation.isAxisName s.toList :=
   identChars_eq_isAxisName s.toList
 
+/-- T-src: the axis-name pattern of the pinned source (regenerated on every run) is the identifier
+pattern `identName` decides. -/
+theorem axis_name_pattern_is_ident : Einx.Extracted.axisNamePattern = "[a-zA-Z_][a-zA-Z0-9_]*" := by decide
+
 /-- The anonymous ellipsis axis of the pinned source (regenerated on every run) is a plain name. -/
 theorem anonymous_name_plain : plainName anonAxis = true := by decide
 
